@@ -11,6 +11,17 @@ class Facts:
         import re
         txt = re.sub(r"\b(?:core|alloc)::", "std::", txt)
         d = json.loads(txt)
+        # normal form: renamed private functions get their reference name back, new helper functions are inlined
+        self.normalized = []
+        from . import normalize
+        import os
+        base = normalize.load_baseline() if not os.environ.get("SNOWLINT_NO_NORMALIZE") else None
+        if base is not None and cfg_id in base:
+            ren = normalize.detect_renames(normalize.index_of(d), base[cfg_id])
+            if ren:
+                d = json.loads(normalize.apply_renames_text(txt, ren))
+                self.normalized += [("rename", n, k) for n, k in sorted(ren.items())]
+            self.normalized += [("inline", r, p) for (p, r) in normalize.normalize(d, base[cfg_id])]
         self.cfg_id = cfg_id
         self.raw = d
         self.crate = d["crate"]
